@@ -65,6 +65,10 @@ CLAIMS = {
          "Decides that subscribers are notified only after the index transaction committed and only when some key changed, that the unchanged-key predicate keeps nil and empty keys apart and is the "
          "same in maintenance and affectsQuery, and that the handler honours the reset flag and dispatches the same event names in both paths. Soundness of affected-ness for arbitrary key "
          "functions is not decided.", "DESIGN.md section 4 C14"),
+ "C17": ("sibling analysis of the pattern scanners: token-start-flag recogniser (loop-head bool phi) + guard dominance on every wildcard comparison + validator rune-class agreement + single-pass replacement rule",
+         "Decides that no pattern operation can give '$', '*' or '>' a wildcard meaning in the middle of a token (each wildcard comparison is under a token-start guard; Values' exception is "
+         "accepted only with its whole-token witness; the mux compares token[0]), that the three validators accept the same character range, and that tag replacement is one simultaneous pass. "
+         "Agreement of the operations on every string and round-trips are not enumerated.", "DESIGN.md section 4 C17"),
 }
 
 NA = {
